@@ -294,6 +294,15 @@ def run_history(ctx, h, count=True):
                 unrefreshed = False     # size changed via modify/update since the node last recorded its size
                 unref_at_last = False
 
+                class Broken(BaseException):
+                    pass
+
+                def violation(what, case, sig, detail):
+                    if count:
+                        ctx.count("violation-class:" + sig)
+                    ctx.violation(what, case, sig, detail)
+                    raise Broken()     # what follows in this history is a consequence of the first violation
+
                 def check_read(i, got, off, size):
                     """`got` was returned by a read of [off, off+size) (size None = to the end) after op last_mut."""
                     nonlocal free
@@ -303,7 +312,7 @@ def run_history(ctx, h, count=True):
                     okay = len(got) == len(want) and all(got[j] == want[j] or (off + j) in free for j in range(len(got)))
                     if not okay:
                         sig = classify(h, last_mut, fmt, ref_before, unref_at_last) if last_mut is not None else "create"
-                        ctx.violation("read after a successful operation differs from the byte-string reference",
+                        violation("read after a successful operation differs from the byte-string reference",
                                       dict(h, ops=h["ops"][:i + 1]), sig + "-wrong-bytes",
                                       {"op": h["ops"][last_mut], "read": [off, size], "got": got.hex(), "want": want.hex()})
                         return
@@ -312,118 +321,121 @@ def run_history(ctx, h, count=True):
                             ref[off + j] = got[j]
                             free.discard(off + j)
 
-                for i, op in enumerate(h["ops"]):
-                    kind = op[0]
-                    size_before = len(ref) if ref is not None else 0
-                    if count:
-                        ctx.count("op:" + kind + (":" + (fmt or op[1]) if kind != "read" else ""))
-                        ctx.case(("H", fmt or op[1], h["k"], seg, size_before, repr(op[:3])) if size_before else None)
-                    if kind == "read":
-                        off, size, how = op[1], op[2], op[3]
-                        try:
-                            if how == "dbv":
-                                got = rt.wait(node.download_best_version())
-                                unrefreshed = False     # _record_size
-                            else:
-                                v = rt.wait(node.get_best_readable_version())
-                                mc = MemoryConsumer()
-                                rt.wait(v.read(mc, off, size))
-                                got = b"".join(mc.chunks)
-                        except Exception as e:
-                            outs.append("err:" + exc_name(e))
+                try:
+                    for i, op in enumerate(h["ops"]):
+                        kind = op[0]
+                        size_before = len(ref) if ref is not None else 0
+                        if count:
+                            ctx.count("op:" + kind + (":" + (fmt or op[1]) if kind != "read" else ""))
+                            ctx.case(("H", fmt or op[1], h["k"], seg, size_before, repr(op[:3])) if size_before else None)
+                        if kind == "read":
+                            off, size, how = op[1], op[2], op[3]
+                            try:
+                                if how == "dbv":
+                                    got = rt.wait(node.download_best_version())
+                                    unrefreshed = False     # _record_size
+                                else:
+                                    v = rt.wait(node.get_best_readable_version())
+                                    mc = MemoryConsumer()
+                                    rt.wait(v.read(mc, off, size))
+                                    got = b"".join(mc.chunks)
+                            except Exception as e:
+                                outs.append("err:" + exc_name(e))
+                                n = len(ref)
+                                valid = (size == 0) or (off < n and (size is None or off + size <= n)) or (size is None and off == n)
+                                if valid:
+                                    sig = classify(h, last_mut, fmt, ref_before, unref_at_last) if last_mut is not None else "create"
+                                    violation("read of a valid range after a successful operation fails",
+                                                  dict(h, ops=h["ops"][:i + 1]), sig + "-unreadable",
+                                                  {"op": h["ops"][last_mut] if last_mut is not None else None,
+                                                   "read": [off, size], "exc": "%s: %s" % (type(e).__name__, str(e)[:200])})
+                                if count:
+                                    ctx.count("read:refused" if not valid else "read:failed")
+                                continue
+                            outs.append(hx(got))
                             n = len(ref)
-                            valid = (size == 0) or (off < n and (size is None or off + size <= n)) or (size is None and off == n)
-                            if valid:
-                                sig = classify(h, last_mut, fmt, ref_before, unref_at_last) if last_mut is not None else "create"
-                                ctx.violation("read of a valid range after a successful operation fails",
-                                              dict(h, ops=h["ops"][:i + 1]), sig + "-unreadable",
-                                              {"op": h["ops"][last_mut] if last_mut is not None else None,
-                                               "read": [off, size], "exc": "%s: %s" % (type(e).__name__, str(e)[:200])})
+                            if (size == 0) or (off <= n and (size is None or off + size <= n)):
+                                check_read(i, got, off, size)
                             if count:
-                                ctx.count("read:refused" if not valid else "read:failed")
+                                ctx.count("read:whole" if (off == 0 and size is None) else "read:range")
                             continue
-                        outs.append(hx(got))
-                        n = len(ref)
-                        if (size == 0) or (off <= n and (size is None or off + size <= n)):
-                            check_read(i, got, off, size)
-                        if count:
-                            ctx.count("read:whole" if (off == 0 and size is None) else "read:range")
-                        continue
-                    # ---- mutators
-                    try:
-                        new_ref = None
-                        new_free = set()
-                        if kind == "create":
-                            fmt = op[1]
-                            data = bytes.fromhex(op[2])
-                            node = rt.wait(c.create_mutable_file(
-                                MutableData(data), version=MDMF_VERSION if fmt == "m" else SDMF_VERSION,
-                                unique_keypair=keypair()))
-                            new_ref = bytearray(data)
-                            refreshed = True
-                        elif kind == "overwrite":
-                            data = bytes.fromhex(op[1])
-                            if op[2] == "node":
-                                rt.wait(node.overwrite(MutableData(data)))
+                        # ---- mutators
+                        try:
+                            new_ref = None
+                            new_free = set()
+                            if kind == "create":
+                                fmt = op[1]
+                                data = bytes.fromhex(op[2])
+                                node = rt.wait(c.create_mutable_file(
+                                    MutableData(data), version=MDMF_VERSION if fmt == "m" else SDMF_VERSION,
+                                    unique_keypair=keypair()))
+                                new_ref = bytearray(data)
                                 refreshed = True
-                            else:
-                                mv = rt.wait(node.get_best_mutable_version())
-                                rt.wait(mv.overwrite(MutableData(data)))
-                                refreshed = False
-                            new_ref = bytearray(data)
-                        elif kind == "modify":
-                            arg = op[2] if op[1] == "cut" else (bytes.fromhex(op[2]) if len(op) > 2 else None)
-                            seen = []
+                            elif kind == "overwrite":
+                                data = bytes.fromhex(op[1])
+                                if op[2] == "node":
+                                    rt.wait(node.overwrite(MutableData(data)))
+                                    refreshed = True
+                                else:
+                                    mv = rt.wait(node.get_best_mutable_version())
+                                    rt.wait(mv.overwrite(MutableData(data)))
+                                    refreshed = False
+                                new_ref = bytearray(data)
+                            elif kind == "modify":
+                                arg = op[2] if op[1] == "cut" else (bytes.fromhex(op[2]) if len(op) > 2 else None)
+                                seen = []
 
-                            def modifier(old, servermap, first_time, _k=op[1], _a=arg):
-                                seen.append(old)
-                                return apply_modifier(_k, _a, old)
-                            rt.wait(node.modify(modifier))
-                            if seen:
-                                check_read(i, seen[-1], 0, None)     # the old contents handed to the modifier are a read
-                            r = apply_modifier(op[1], arg, bytes(ref))
-                            new_ref = bytearray(ref if r is None else r)
-                            new_free = set(free) if (r is None or r == bytes(ref)) else set()
-                            refreshed = False
-                        elif kind == "update":
-                            off, data = op[1], bytes.fromhex(op[2])
-                            mv = rt.wait(node.get_best_mutable_version())
-                            rt.wait(mv.update(MutableData(data), off))
-                            new_ref = bytearray(ref)
-                            new_free = set(free)
-                            if off > len(new_ref):               # the statement does not say what the gap holds
-                                new_free |= set(range(len(new_ref), off))
-                                new_ref.extend(b"\x00" * (off - len(new_ref)))
-                            new_ref[off:off + len(data)] = data
-                            new_free -= set(range(off, off + len(data)))
-                            refreshed = False
-                        else:
-                            raise ValueError("unknown op %r" % (op,))
-                    except Exception as e:
-                        if isinstance(e, (ValueError, KeyError, TypeError)) and kind not in ("update", "modify", "overwrite", "create"):
-                            raise
-                        outs.append("err:" + exc_name(e))
-                        if count:
-                            ctx.count("refused:%s:%s:%s" % (fmt, kind, exc_name(e)))
-                        continue
-                    # success
-                    ref_before = bytes(ref) if ref is not None else b""
-                    unref_at_last = unrefreshed
-                    if refreshed or len(new_ref) == 0:
-                        unrefreshed = False       # a zero cached size is re-learned from every servermap update
-                    elif len(new_ref) != len(ref_before):
-                        unrefreshed = True
-                    ref, free, last_mut = new_ref, new_free, i
-                    try:
-                        v = rt.wait(node.get_best_readable_version())
-                        outs.append("ok:%d:%d" % (v._version[3], v._version[4]))
-                        if v._version[4] != len(ref):
-                            ctx.violation("size of the version after a successful operation differs from the reference",
-                                          dict(h, ops=h["ops"][:i + 1]),
-                                          classify(h, i, fmt, ref_before, unref_at_last) + "-wrong-size",
-                                          {"op": op, "got": v._version[4], "want": len(ref)})
-                    except Exception as e:
-                        outs.append("ok:?:" + exc_name(e))
+                                def modifier(old, servermap, first_time, _k=op[1], _a=arg):
+                                    seen.append(old)
+                                    return apply_modifier(_k, _a, old)
+                                rt.wait(node.modify(modifier))
+                                if seen:
+                                    check_read(i, seen[-1], 0, None)     # the old contents handed to the modifier are a read
+                                r = apply_modifier(op[1], arg, bytes(ref))
+                                new_ref = bytearray(ref if r is None else r)
+                                new_free = set(free) if (r is None or r == bytes(ref)) else set()
+                                refreshed = False
+                            elif kind == "update":
+                                off, data = op[1], bytes.fromhex(op[2])
+                                mv = rt.wait(node.get_best_mutable_version())
+                                rt.wait(mv.update(MutableData(data), off))
+                                new_ref = bytearray(ref)
+                                new_free = set(free)
+                                if off > len(new_ref):               # the statement does not say what the gap holds
+                                    new_free |= set(range(len(new_ref), off))
+                                    new_ref.extend(b"\x00" * (off - len(new_ref)))
+                                new_ref[off:off + len(data)] = data
+                                new_free -= set(range(off, off + len(data)))
+                                refreshed = False
+                            else:
+                                raise ValueError("unknown op %r" % (op,))
+                        except Exception as e:
+                            if isinstance(e, (ValueError, KeyError, TypeError)) and kind not in ("update", "modify", "overwrite", "create"):
+                                raise
+                            outs.append("err:" + exc_name(e))
+                            if count:
+                                ctx.count("refused:%s:%s:%s" % (fmt, kind, exc_name(e)))
+                            continue
+                        # success
+                        ref_before = bytes(ref) if ref is not None else b""
+                        unref_at_last = unrefreshed
+                        if refreshed or len(new_ref) == 0:
+                            unrefreshed = False       # a zero cached size is re-learned from every servermap update
+                        elif len(new_ref) != len(ref_before):
+                            unrefreshed = True
+                        ref, free, last_mut = new_ref, new_free, i
+                        try:
+                            v = rt.wait(node.get_best_readable_version())
+                            outs.append("ok:%d:%d" % (v._version[3], v._version[4]))
+                            if v._version[4] != len(ref):
+                                violation("size of the version after a successful operation differs from the reference",
+                                              dict(h, ops=h["ops"][:i + 1]),
+                                              classify(h, i, fmt, ref_before, unref_at_last) + "-wrong-size",
+                                              {"op": op, "got": v._version[4], "want": len(ref)})
+                        except Exception as e:
+                            outs.append("ok:?:" + exc_name(e))
+                except Broken:
+                    outs.append("VIOLATION")
             finally:
                 g.close()
     finally:
